@@ -87,3 +87,19 @@ package filters
 //@     invariant col < rowSize ==> cg[rowStart + col] == col
 //@     invariant col == rowSize && rowStart + col < len(data) ==> cg[rowStart + col] == 0
 //@     invariant forall k int :: 0 <= k && k < rowStart + col ==> result[k] == raw[k]
+
+// ---- ASCIIHexDecode (ISO 32000-1 7.4.2): white space ignored, each pair of hex digits is one byte ----
+//@ spec func hexVal(b int) int = (b >= '0' && b <= '9') ? b - '0' : ((b >= 'a' && b <= 'f') ? b - 'a' + 10 : ((b >= 'A' && b <= 'F') ? b - 'A' + 10 : 0))
+//@ spec func hexDigit(b int) bool = (b >= '0' && b <= '9') || (b >= 'a' && b <= 'f') || (b >= 'A' && b <= 'F')
+//@ spec func wsByte(b int) bool = b == 0 || b == 9 || b == 10 || b == 12 || b == 13 || b == 32
+//@ func ASCIIHexDecode results (res, err)
+//@   property C05, C02
+//@   loop 0:
+//@     invariant 0 <= i && i <= len(data)
+//@     step white_space_ignored: wsByte(data[prev(i)]) ==> i == prev(i) + 1 && len(result) == prev(len(result))
+//@     step digit_pair: !wsByte(data[prev(i)]) ==> hexDigit(data[prev(i)]) && hexDigit(data[i-1]) && i >= prev(i) + 2 && (forall k int :: {data[k]} prev(i) < k && k < i - 1 ==> wsByte(data[k])) && len(result) == prev(len(result)) + 1 && result[prev(len(result))] == 16 * hexVal(data[prev(i)]) + hexVal(data[i-1])
+//@     step earlier_output_kept: forall k int :: {result[k]} 0 <= k && k < prev(len(result)) ==> result[k] == prev(result)[k]
+//@     decreases len(data) - i
+//@   loop 1:
+//@     invariant entry(i) <= i && i <= len(data) && forall k int :: {data[k]} entry(i) <= k && k < i ==> wsByte(data[k])
+//@     decreases len(data) - i
